@@ -328,7 +328,7 @@ def run_written(case):
             runs.append(w_read(out))
             if k < case.get("subprocesses", 0):  # the same command line as a real process
                 out2 = os.path.join(d, "sub_%d.txt" % k)
-                p = subprocess.run([lib.PY, "-m", "picked_group_fdr"] + argv[:-1] + [out2], capture_output=True, text=True,
+                p = subprocess.run([lib.PY, "-m", "picked_group_fdr"] + w_argv(case, d, k, out2), capture_output=True, text=True,
                                    env=lib.impl_env({"PYTHONHASHSEED": str(k)}), timeout=600)
                 same = p.returncode == 0 and open(out2, "rb").read() == open(out, "rb").read()
                 sub.append({"rc": p.returncode, "same_bytes": same, "stderr": p.stderr[-300:] if p.returncode else ""})
